@@ -37,7 +37,8 @@ const FREEZER_INTERVAL: Duration = Duration::from_secs(60);
 const THRESHOLD_EPOCH: EpochNumber = 2;
 const MAX_FREEZE_LIMIT: BlockNumber = 30_000;
 #[cfg(feature = "verif-hooks")]
-static VERIF_FREEZE_LIMIT: std::sync::atomic::AtomicU64 = std::sync::atomic::AtomicU64::new(u64::MAX);
+static VERIF_FREEZE_LIMIT: std::sync::atomic::AtomicU64 =
+    std::sync::atomic::AtomicU64::new(u64::MAX);
 
 pub const SHRINK_THRESHOLD: usize = 300;
 
